@@ -125,6 +125,17 @@ def run(ctx):
                 reqs.append(f"{en} {hx}")
                 ntails += 1
             reqs.append(f"parse {hx} {len(pre) + 2}:s")
+    # a 64-bit literal that is one word short INSIDE the stream (more instructions follow): a parse error at that instruction — no later
+    # callback, no `finalize` — whatever the following words would decode to
+    for tdecl in (t64, I_(g.opv["TypeFloat"], "TypeFloat", None, 1, [Op_("w", L32_, 64)])):
+        for opname in ("Constant", "SpecConstant"):
+            for tail in ([0x00010000 | g.opv["Nop"]], [0x00010000 | g.opv["NoLine"], 0x00010000 | g.opv["Nop"]],
+                         [0x00030000 | g.opv["MemoryModel"], 0, 1], [0x00030000 | g.opv["Undef"], 1, 8, 0x00010000 | g.opv["NoLine"]]):
+                w2 = instgen.header() + tdecl.words() + [4 << 16 | g.opv[opname], 1, 2, 7] + tail
+                hx = instgen.to_bytes(w2).hex()
+                for en in ("parse", "parseb", "parsew"):
+                    reqs.append(f"{en} {hx}")
+                    ntails += 1
     ctx.coverage["truncated_tails"] = ntails
     impl, model = C.differential(ctx, reqs, "parse-script", oracle=oracle, shrink=False)
     for r, a in zip(reqs, impl):
@@ -138,7 +149,7 @@ def run(ctx):
     ctx.assumptions += ["the theorem is stated modulo 'the model does not panic' (excluded by C04's obligations and by the differential)",
                         "consumer = a function from the callback index to continue/stop/error (every well-behaved consumer's observable behaviour along one parse)"]
     return C.finish(ctx, level="proof", checker_cmd="lake build Rspirv.Props.C14 + #print axioms",
-                    rule="seeded modules (valid, one word corrupted, truncated, empty) x every callback position k x {stop, error} + pairs of positions; distinct non-trivial = distinct (result kind, trace) pairs",
+                    rule="seeded modules (valid, one word corrupted, truncated, empty) x every callback position k x {stop, error} + pairs of positions; the stream cut at every byte of a last instruction of every operand-reading path (ids, parameterised enumerants, strings, literals of declared and undeclared types, switch cases) through all three entry points; distinct non-trivial = distinct (result kind, trace) pairs",
                     trusted=["hand model Parser.lean + differential harness (scripted consumer)"])
 
 
